@@ -406,6 +406,34 @@ func init() {
 		return nil
 	}
 
+	// sync.Pool: a LIFO of the values put back (one of the behaviours the real pool may show: it
+	// may also drop values at any time, which is not modelled); Get and Put are one atomic step.
+	externals["(*sync.Pool).Get"] = func(fr *frame, args []value) value {
+		o := syncObjFor(args[0])
+		syncOp(opAtomicStore, o, o.val, "sync.Pool.Get")
+		if st, ok := o.val.([]value); ok && len(st) > 0 {
+			v := st[len(st)-1]
+			o.val = st[:len(st)-1]
+			return v
+		}
+		if p, ok := args[0].(*value); ok && p != nil {
+			if fields, ok := (*p).(structure); ok && len(fields) > 0 {
+				newf := fields[len(fields)-1]
+				if f, isFn := newf.(*ssa.Function); !(isFn && f == nil) && newf != nil {
+					return call(theInterp, fr, 0, newf, nil)
+				}
+			}
+		}
+		return nilIface
+	}
+	externals["(*sync.Pool).Put"] = func(fr *frame, args []value) value {
+		o := syncObjFor(args[0])
+		syncOp(opAtomicStore, o, o.val, "sync.Pool.Put")
+		st, _ := o.val.([]value)
+		o.val = append(append([]value(nil), st...), args[1])
+		return nil
+	}
+
 	// sync/atomic typed values (generic Pointer[T] and the fixed-size types)
 	atomicLoad := func(fr *frame, args []value) value {
 		o := syncObjFor(args[0])
